@@ -116,8 +116,8 @@ def selectors(draw: Any, g: dict[str, Any], bound: list[str], depth: int = 2) ->
             cur = None
             break
         else:
-            a = draw(st.sampled_from([None, 0, 1]))
-            b = draw(st.sampled_from([None, 1, 2, 3]))
+            a = draw(st.sampled_from([None, 0, 1, 2]))
+            b = draw(st.sampled_from([None, 0, 1, 2, 3]))
             sel = ["slice", sel, a, b]
             cur = None
             break
